@@ -183,7 +183,7 @@ def check(tier, seed):
         res.compare(cases)
         # real message classes: wire(CID, pack()) on freshly constructed frames
         res.notes['lengths_distinct'] = len(set(lens))
-        xs = (kept + [c for c in cases if c.comp == 'to_bytes' and c.desc['len'] <= 64])[:25]
+        xs = [c for c in (kept + [c for c in cases if c.comp == 'to_bytes' and c.desc['len'] <= 64]) if not c.impl.startswith('!')][:25]
         terms = []
         for c in xs:
             _, cc, ii, h = c.cmd.split()
